@@ -3,18 +3,18 @@ package u
 import "exp/d"
 
 func Violations(t *d.T) {
-	t.X = 1          // IMM01
-	t.X += 2         // IMM02
-	t.X++            // IMM03
-	t.Items[0] = 4   // IMM04
-	_ = d.T{}        // CTOR01
-	_ = new(d.T)     // CTOR02
-	var z d.T        // CTOR03
+	t.X = 1
+	t.X += 2
+	t.X++
+	t.Items[0] = 4
+	_ = d.T{}
+	_ = new(d.T)
+	var z d.T
 	_ = z
-	_ = d.Mock{}     // TONL01
-	_ = d.Helper()   // TONL02
-	t.Reset()        // TONL03
-	_ = d.Only{}     // PKGO01
-	_ = d.OnlyFunc() // PKGO02
-	t.OnlyMethod()   // PKGO03
+	_ = d.Mock{}
+	_ = d.Helper()
+	t.Reset()
+	_ = d.Only{}
+	_ = d.OnlyFunc()
+	t.OnlyMethod()
 }
